@@ -95,7 +95,7 @@ func c05Diff(before, after map[string]int) []string {
 }
 
 var c05Endings = []string{"deletion", "release", "read-timeout", "heartbeat-failure", "report-context-not-found"}
-var c05Prefixes = []string{"plain", "rejected-est-after-alloc", "rejected-mod-halfway", "mod-then-end", "datapath-write-failure", "two-sessions"}
+var c05Prefixes = []string{"plain", "rejected-est-after-alloc", "rejected-mod-halfway", "mod-then-end", "idle-then-end", "datapath-write-failure", "two-sessions"}
 
 func TestVerif_C05(t *testing.T) {
 	res := vNewResult("C05")
@@ -264,6 +264,16 @@ func c05Scenario(res *vResult, rng *rand.Rand, up4 bool, ending, prefix string, 
 			mod.RmQER = []uint32{99}
 		}
 		c01Request(p, p.modify(mod), seq)
+	}
+	if prefix == "idle-then-end" && ending != "report-context-not-found" {
+		// the UE goes idle: the downlink FAR buffers and notifies, tunnel parameters keep the base station but TEID 0
+		// (what pfcpsim and the integration tests send); the session then ends while idle
+		seq++
+		orig := mkEst(0, 1).FARs[1]
+		f := vFARSpec{ID: orig.ID, Action: ActionBuffer | ActionNotify, Fwd: true, HasDst: true, DstIf: ie.DstInterfaceAccess, OHC: true, OHCTeid: 0, OHCIP: orig.OHCIP}
+		if m := c01Request(p, p.modify(vModSpec{Seq: seq, SEID: ups[0], UpFAR: []vFARSpec{f}}), seq); m == nil || vDecodeReply(m).Cause != ie.CauseRequestAccepted {
+			res.note("prefix idle-then-end: the Update FAR to BUFF|NOCP was not accepted")
+		}
 	}
 	mid := c05Occupancy(a)
 	res.event("sessions_established", len(ups))
